@@ -543,6 +543,12 @@ pub fn check_doc_case(suts: &[Sut], rt: &tokio::runtime::Runtime, c: &DocCase, s
         st.count("skip:no-value");
         return Ok(());
     }
+    if (400..500).contains(&resp.status) && req.body.is_some() && resp.json().and_then(|j| j["message"].as_str().or(j["problem"].as_str()).map(|m| m.starts_with("request body exceeded maximum size"))).unwrap_or(false) {
+        // The document does not publish body size limits; generated endpoints may declare limits smaller than
+        // a schema-valid body.  Size limits are C11's (and C19's) business: not judged here.
+        st.count("skip:body-over-endpoint-limit");
+        return Ok(());
+    }
     let nparams = op.get("parameters").and_then(|p| p.as_array()).map(|a| a.len()).unwrap_or(0);
     let structured_body = req.body.as_ref().map(|b| b.len() > 8).unwrap_or(false);
     if nparams >= 2 || structured_body {
@@ -640,6 +646,7 @@ pub fn run(ctx: &mut Ctx) {
 /// `extra` may add further systems under test (generated API programs)
 pub fn run_with(ctx: &mut Ctx, extra: impl FnOnce(&tokio::runtime::Runtime, &mut Vec<Sut>, &mut Vec<Box<dyn std::any::Any>>)) {
     ctx.rule = "for each operation of several compiled APIs (echo round trip of ~60 zoo types as JSON bodies; typed path/query/body/form/multipart/raw echo endpoints; every response kind; paginated endpoints) a request is built from the OpenAPI document alone - documented path, all required parameters plus a random subset of optional ones, a body that an OpenAPI-3.0 validator accepts for the documented request schema under the documented content type - and sent to a live server. Oracle: accepted with a documented success status, handler entered once; response status, content type and body (validated by the OpenAPI-3.0 validator) are among those documented, required documented headers present; omitting each required query parameter gives a 4xx without handler entry, and that framework error validates against the documented error response. non-trivial = operation with >= 2 parameters or a structured body; distinct by request bytes. (The progen phase adds generated API programs, see C19's generator.)".into();
+    ctx.assume("body size limits are not part of the document: a schema-valid body refused with 'request body exceeded maximum size' is not judged (counted as skip:body-over-endpoint-limit; limits are C11's and C19's business)");
     ctx.assume("operations whose schemas use a string format the harness cannot generate are skipped and counted; path parameter values exclude '', '.', '..'; paginated operations honour x-dropshot-pagination.required");
     ctx.max_shrink_iters = 300;
     let srt = tokio::runtime::Builder::new_multi_thread().worker_threads(3).enable_all().build().unwrap();
